@@ -374,3 +374,121 @@ func ruleHTTPBreaker(w *World, r *Report) {
 		r.ok("HTTP-BRK", key, w.Pos(fn.Pos()), "client.Do only behind the no-breaker / breaker-closed edges")
 	}
 }
+
+// BRK-WINDOW (C20): the slots of the sliding window cover a whole interval.
+func ruleBrkWindow(w *World, r *Report) {
+	r.Rule("BRK-WINDOW", "OutboundBreaker keeps one count per tick (interval / ticks); slide() shifts by whole ticks, so element 0 belongs to the current, partial tick and the remaining len(counts)-1 elements to whole ticks.  The window the limit is tested against therefore reaches back between len(counts)-1 and len(counts) ticks, and it covers a whole interval only if the array has more elements than the interval has ticks: where `counts` is allocated, its length is the tick count plus at least one.  With exactly `ticks` elements a call made late in a tick is forgotten after a little more than ticks-1 ticks, and 2*limit-1 calls fit into a window shorter than the interval", 1)
+	const ob = "core.OutboundBreaker"
+	n := 0
+	for _, fn := range w.Funcs {
+		if w.RelPkg(fn) != "core" || isTestFile(w, fn) {
+			continue
+		}
+		var ticksVal ssa.Value
+		allInstrs(fn, func(in ssa.Instruction) {
+			if st, ok := storesToField(in, ob, "ticks"); ok {
+				ticksVal = st.Val
+			}
+		})
+		allInstrs(fn, func(in ssa.Instruction) {
+			st, ok := storesToField(in, ob, "counts")
+			if !ok {
+				return
+			}
+			ms, ok := st.Val.(*ssa.MakeSlice)
+			if !ok {
+				return
+			}
+			n++
+			key := "fn=" + fname(fn)
+			if ticksVal == nil {
+				r.exempt("BRK-WINDOW", key, w.PosOf(in), "the function that allocates `counts` does not set `ticks`: shape not recognised, not decided")
+				return
+			}
+			l := ms.Len
+			if cv, ok := l.(*ssa.Convert); ok {
+				l = cv.X
+			}
+			tv := ticksVal
+			if cv, ok := tv.(*ssa.Convert); ok {
+				tv = cv.X
+			}
+			more := false
+			if b, ok := l.(*ssa.BinOp); ok && b.Op == token.ADD {
+				if c, ok := b.Y.(*ssa.Const); ok && c.Value != nil && c.Int64() >= 1 && (b.X == tv || sameConst(b.X, tv)) {
+					more = true
+				}
+				if c, ok := b.X.(*ssa.Const); ok && c.Value != nil && c.Int64() >= 1 && (b.Y == tv || sameConst(b.Y, tv)) {
+					more = true
+				}
+			}
+			if lc, ok := l.(*ssa.Const); ok {
+				if tc, ok := tv.(*ssa.Const); ok && lc.Value != nil && tc.Value != nil && lc.Int64() > tc.Int64() {
+					more = true
+				}
+			}
+			if more {
+				r.ok("BRK-WINDOW", key, w.PosOf(in), "the window has more elements than the interval has ticks")
+			} else {
+				r.violation("BRK-WINDOW", key, w.PosOf(in), "`counts` has exactly as many elements as the interval has ticks: the window reaches back less than one interval (between ticks-1 and ticks ticks)")
+			}
+		})
+	}
+	if n == 0 {
+		r.exempt("BRK-WINDOW", "field="+ob+".counts", "", "no allocation of OutboundBreaker.counts found: shape not recognised, not decided")
+	}
+}
+
+func sameConst(a, b ssa.Value) bool {
+	ca, ok1 := a.(*ssa.Const)
+	cb, ok2 := b.(*ssa.Const)
+	return ok1 && ok2 && ca.Value != nil && cb.Value != nil && ca.Int64() == cb.Int64()
+}
+
+// BRK-ADJUST (C20): adjusting a breaker does not forget the calls in its window.
+func ruleBrkAdjust(w *World, r *Report) {
+	r.Rule("BRK-ADJUST", "OutboundBreaker.Adjust changes the limit (and possibly the interval) of a breaker that is in use.  In the functions it reaches, a store of a newly made slice into `counts` is control-dependent on a test of the breaker's current state (the present `counts` or `interval`): an unconditional re-allocation forgets the calls that are in the window, so any Adjust — even with unchanged values — lets another `limit` calls through at once", 1)
+	const ob = "core.OutboundBreaker"
+	adj := w.Method("core", "OutboundBreaker", "Adjust")
+	seen := map[*ssa.Function]bool{}
+	var fns []*ssa.Function
+	var visit func(f *ssa.Function)
+	visit = func(f *ssa.Function) {
+		if f == nil || seen[f] || len(f.Blocks) == 0 || !w.IsRulio(f) {
+			return
+		}
+		seen[f] = true
+		fns = append(fns, f)
+		allInstrs(f, func(in ssa.Instruction) {
+			if c := callOf(in); c != nil {
+				visit(c.StaticCallee())
+			}
+		})
+	}
+	visit(adj)
+	n := 0
+	for _, fn := range fns {
+		allInstrs(fn, func(in ssa.Instruction) {
+			st, ok := storesToField(in, ob, "counts")
+			if !ok {
+				return
+			}
+			if _, isMake := st.Val.(*ssa.MakeSlice); !isMake {
+				return
+			}
+			n++
+			key := "fn=" + fname(fn)
+			onState := func(v ssa.Value) bool {
+				return isFieldLoad(v, ob, "counts") || isFieldLoad(v, ob, "interval") || isFieldLoad(v, ob, "ticks")
+			}
+			if controlDependsOn(fn, in, onState) {
+				r.ok("BRK-ADJUST", key, w.PosOf(in), "the window is re-allocated only when its shape changes")
+			} else {
+				r.violation("BRK-ADJUST", key, w.PosOf(in), "Adjust re-allocates the window unconditionally: the calls already counted are forgotten, and `limit` more are admitted at once")
+			}
+		})
+	}
+	if n == 0 {
+		r.ok("BRK-ADJUST", "fn="+fname(adj), w.Pos(adj.Pos()), "Adjust never re-allocates the window")
+	}
+}
